@@ -1,5 +1,794 @@
-//! pure-probe suite `fat` (see /verif/ARCH.md). STUB — to be replaced.
-use crate::util::Tier;
-use std::io::Write;
+//! pure-probe suite `fat` (see /verif/ARCH.md): the crate-private FAT codec and table algorithms of `table.rs`
+//! (hooks `fatfs::verif::verif_table`) run on an in-memory stream that holds the bytes of ONE FAT copy.
+//!
+//! Stream semantics (= the `Dev` semantics of ARCH.md, no faults): `seek(Start n)` always succeeds, `read`/`write`
+//! transfer `min(len, size - pos)` bytes. The stream's error type is `fatfs::Error<PErr>` (like the library's own
+//! `DiskSlice`), so a short `read_exact` surfaces as `Error::UnexpectedEof` and a zero-length `write` as
+//! `Error::WriteZero`. Every stream call decrements a budget; an exhausted budget panics with a marker payload that is
+//! reported as `HANG`.
+use crate::rng::SplitMix64;
+use crate::util::{hex, opt, Tier};
+use fatfs::verif::{error_code, verif_table as vt};
+use fatfs::{Error, IoBase, IoError, Read, Seek, SeekFrom, Write};
+use std::io::Write as IoWrite;
 
-pub fn run(_tier: Tier, _seed: u64, _out: &mut dyn Write) {}
+/// the (never constructed by the stream itself) storage error
+#[derive(Debug, Clone, Copy, PartialEq, Eq)]
+pub struct PErr;
+
+impl IoError for PErr {
+    fn is_interrupted(&self) -> bool {
+        false
+    }
+    fn new_unexpected_eof_error() -> Self {
+        PErr
+    }
+    fn new_write_zero_error() -> Self {
+        PErr
+    }
+}
+
+struct HangMarker;
+
+pub struct MemStream {
+    pub data: Vec<u8>,
+    pub pos: u64,
+    pub budget: u64,
+}
+
+impl MemStream {
+    pub fn new(data: Vec<u8>, budget: u64) -> Self {
+        Self { data, pos: 0, budget }
+    }
+    fn tick(&mut self) {
+        if self.budget == 0 {
+            std::panic::panic_any(HangMarker);
+        }
+        self.budget -= 1;
+    }
+}
+
+impl IoBase for MemStream {
+    type Error = Error<PErr>;
+}
+
+impl Read for MemStream {
+    fn read(&mut self, buf: &mut [u8]) -> Result<usize, Self::Error> {
+        self.tick();
+        let size = self.data.len() as u64;
+        if self.pos >= size {
+            return Ok(0);
+        }
+        let n = (buf.len() as u64).min(size - self.pos) as usize;
+        let p = self.pos as usize;
+        buf[..n].copy_from_slice(&self.data[p..p + n]);
+        self.pos += n as u64;
+        Ok(n)
+    }
+}
+
+impl Write for MemStream {
+    fn write(&mut self, buf: &[u8]) -> Result<usize, Self::Error> {
+        self.tick();
+        let size = self.data.len() as u64;
+        if self.pos >= size {
+            return Ok(0);
+        }
+        let n = (buf.len() as u64).min(size - self.pos) as usize;
+        let p = self.pos as usize;
+        self.data[p..p + n].copy_from_slice(&buf[..n]);
+        self.pos += n as u64;
+        Ok(n)
+    }
+    fn flush(&mut self) -> Result<(), Self::Error> {
+        self.tick();
+        Ok(())
+    }
+}
+
+impl Seek for MemStream {
+    fn seek(&mut self, pos: SeekFrom) -> Result<u64, Self::Error> {
+        self.tick();
+        let new = match pos {
+            SeekFrom::Start(n) => Some(n),
+            SeekFrom::Current(d) => (self.pos as i64).checked_add(d).and_then(|n| u64::try_from(n).ok()),
+            SeekFrom::End(d) => (self.data.len() as i64).checked_add(d).and_then(|n| u64::try_from(n).ok()),
+        };
+        match new {
+            Some(n) => {
+                self.pos = n;
+                Ok(n)
+            }
+            None => Err(Error::InvalidInput),
+        }
+    }
+}
+
+enum Outcome<T> {
+    Done(T),
+    Panic,
+    Hang,
+}
+
+fn guarded<T>(f: impl FnOnce() -> T) -> Outcome<T> {
+    match std::panic::catch_unwind(std::panic::AssertUnwindSafe(f)) {
+        Ok(v) => Outcome::Done(v),
+        Err(p) => {
+            if p.is::<HangMarker>() {
+                Outcome::Hang
+            } else {
+                Outcome::Panic
+            }
+        }
+    }
+}
+
+const BUDGET: u64 = 200_000;
+
+type R<T> = Result<T, Error<PErr>>;
+
+/// result without the bytes
+fn show_plain<T>(o: Outcome<R<T>>, ok: impl FnOnce(T) -> String) -> String {
+    match o {
+        Outcome::Done(Ok(v)) => ok(v),
+        Outcome::Done(Err(e)) => format!("ERR {}", error_code(&e)),
+        Outcome::Panic => "PANIC".into(),
+        Outcome::Hang => "HANG".into(),
+    }
+}
+
+/// result followed by the bytes (also after an error)
+fn show_with_fat<T: std::fmt::Display>(o: Outcome<R<T>>, s: &MemStream) -> String {
+    match o {
+        Outcome::Done(Ok(v)) => format!("{} {}", v, hex(&s.data)),
+        Outcome::Done(Err(e)) => format!("ERR {} {}", error_code(&e), hex(&s.data)),
+        Outcome::Panic => "PANIC".into(),
+        Outcome::Hang => "HANG".into(),
+    }
+}
+
+struct Emit<'a> {
+    out: &'a mut dyn IoWrite,
+    count: u64,
+}
+
+impl<'a> Emit<'a> {
+    fn line(&mut self, lhs: String, rhs: String) {
+        writeln!(self.out, "P {} => {}", lhs, rhs).unwrap();
+        self.count += 1;
+    }
+
+    fn get(&mut self, bits: u8, fat: &[u8], c: u32) {
+        let mut s = MemStream::new(fat.to_vec(), BUDGET);
+        let o = guarded(|| vt::get::<MemStream, PErr>(&mut s, bits, c));
+        let rhs = show_plain(o, |(k, n)| format!("{} {}", k, n));
+        self.line(format!("fat.get {} {} {}", bits, hex(fat), c), rhs);
+    }
+
+    fn set(&mut self, bits: u8, fat: &[u8], c: u32, kind: u8, n: u32) {
+        let mut s = MemStream::new(fat.to_vec(), BUDGET);
+        let o = guarded(|| vt::set::<MemStream, PErr>(&mut s, bits, c, kind, n));
+        let rhs = match o {
+            Outcome::Done(Ok(())) => hex(&s.data),
+            Outcome::Done(Err(e)) => format!("ERR {}", error_code(&e)),
+            Outcome::Panic => "PANIC".into(),
+            Outcome::Hang => "HANG".into(),
+        };
+        self.line(format!("fat.set {} {} {} {} {}", bits, hex(fat), c, kind, n), rhs);
+    }
+
+    fn find_free(&mut self, bits: u8, fat: &[u8], start: u32, end: u32) {
+        let mut s = MemStream::new(fat.to_vec(), BUDGET);
+        let o = guarded(|| vt::find_free::<MemStream, PErr>(&mut s, bits, start, end));
+        let rhs = show_plain(o, |c| c.to_string());
+        self.line(format!("fat.find_free {} {} {} {}", bits, hex(fat), start, end), rhs);
+    }
+
+    fn count_free(&mut self, bits: u8, fat: &[u8], total: u32) {
+        let mut s = MemStream::new(fat.to_vec(), BUDGET);
+        let o = guarded(|| vt::count_free::<MemStream, PErr>(&mut s, bits, total));
+        let rhs = show_plain(o, |c| c.to_string());
+        self.line(format!("fat.count_free {} {} {}", bits, hex(fat), total), rhs);
+    }
+
+    fn alloc(&mut self, bits: u8, fat: &[u8], prev: Option<u32>, hint: Option<u32>, total: u32) {
+        let mut s = MemStream::new(fat.to_vec(), BUDGET);
+        let o = guarded(|| vt::alloc::<MemStream, PErr>(&mut s, bits, prev, hint, total));
+        let rhs = show_with_fat(o, &s);
+        self.line(
+            format!("fat.alloc {} {} {} {} {}", bits, hex(fat), opt(prev), opt(hint), total),
+            rhs,
+        );
+    }
+
+    fn free(&mut self, bits: u8, fat: &[u8], c: u32, budget: u64) {
+        let mut s = MemStream::new(fat.to_vec(), budget);
+        let o = guarded(|| vt::free_chain::<MemStream, PErr>(&mut s, bits, c));
+        let rhs = show_with_fat(o, &s);
+        self.line(format!("fat.free {} {} {} {}", bits, hex(fat), c, budget), rhs);
+    }
+
+    fn truncate(&mut self, bits: u8, fat: &[u8], c: u32, budget: u64) {
+        let mut s = MemStream::new(fat.to_vec(), budget);
+        let o = guarded(|| vt::truncate_chain::<MemStream, PErr>(&mut s, bits, c));
+        let rhs = show_with_fat(o, &s);
+        self.line(format!("fat.truncate {} {} {} {}", bits, hex(fat), c, budget), rhs);
+    }
+
+    fn chain(&mut self, bits: u8, fat: &[u8], c: u32, max: usize) {
+        let mut s = MemStream::new(fat.to_vec(), BUDGET);
+        let o = guarded(|| vt::chain::<MemStream, PErr>(&mut s, bits, c, max));
+        let rhs = show_plain(o, |v| {
+            if v.is_empty() {
+                "-".to_string()
+            } else {
+                v.iter().map(|c| c.to_string()).collect::<Vec<_>>().join(",")
+            }
+        });
+        self.line(format!("fat.chain {} {} {} {}", bits, hex(fat), c, max), rhs);
+    }
+
+    fn flags(&mut self, bits: u8, fat: &[u8]) {
+        let mut s = MemStream::new(fat.to_vec(), BUDGET);
+        let o = guarded(|| vt::flags::<MemStream, PErr>(&mut s, bits));
+        let rhs = show_plain(o, |(d, i)| format!("{} {}", d as u8, i as u8));
+        self.line(format!("fat.flags {} {}", bits, hex(fat)), rhs);
+    }
+
+    fn format(&mut self, bits: u8, media: u8, bytes_per_fat: u64, total: u32) {
+        let mut s = MemStream::new(vec![0u8; bytes_per_fat as usize], BUDGET);
+        let o = guarded(|| vt::format::<MemStream, PErr>(&mut s, bits, media, bytes_per_fat, total));
+        let rhs = match o {
+            Outcome::Done(Ok(())) => hex(&s.data),
+            Outcome::Done(Err(e)) => format!("ERR {} {}", error_code(&e), hex(&s.data)),
+            Outcome::Panic => "PANIC".into(),
+            Outcome::Hang => "HANG".into(),
+        };
+        self.line(format!("fat.format {} {} {} {}", bits, media, bytes_per_fat, total), rhs);
+    }
+}
+
+// ---------------------------------------------------------------------------------------------------------------
+// table builder (an encoder written for the harness, independent of the library and of the Lean model)
+
+fn max_val(bits: u8) -> u32 {
+    match bits {
+        12 => 0xFFF,
+        16 => 0xFFFF,
+        _ => 0x0FFF_FFFF,
+    }
+}
+
+/// minimal number of bytes that holds `n` whole entries
+fn bytes_for(bits: u8, n: usize) -> usize {
+    match bits {
+        12 => (n * 3 + 1) / 2,
+        16 => n * 2,
+        _ => n * 4,
+    }
+}
+
+/// encode entry values (FAT32: full 32-bit words, i.e. including the reserved nibble)
+fn encode(bits: u8, entries: &[u32], extra: usize) -> Vec<u8> {
+    let mut v = vec![0u8; bytes_for(bits, entries.len()) + extra];
+    for (k, &e) in entries.iter().enumerate() {
+        match bits {
+            12 => {
+                let bit = k * 12;
+                let byte = bit / 8;
+                let e = e & 0xFFF;
+                if bit % 8 == 0 {
+                    v[byte] = (e & 0xFF) as u8;
+                    v[byte + 1] = (v[byte + 1] & 0xF0) | ((e >> 8) as u8);
+                } else {
+                    v[byte] = (v[byte] & 0x0F) | (((e & 0xF) as u8) << 4);
+                    v[byte + 1] = (e >> 4) as u8;
+                }
+            }
+            16 => {
+                v[2 * k] = e as u8;
+                v[2 * k + 1] = (e >> 8) as u8;
+            }
+            _ => {
+                v[4 * k..4 * k + 4].copy_from_slice(&e.to_le_bytes());
+            }
+        }
+    }
+    v
+}
+
+fn pick_size(rng: &mut SplitMix64) -> usize {
+    match rng.below(10) {
+        0..=5 => rng.range(8, 40) as usize,
+        6..=8 => rng.range(41, 128) as usize,
+        _ => rng.range(129, 400) as usize,
+    }
+}
+
+fn eoc_variant(rng: &mut SplitMix64, bits: u8) -> u32 {
+    max_val(bits) - rng.below(8) as u32
+}
+
+#[derive(Clone, Copy, PartialEq, Eq, Debug)]
+enum Style {
+    Sparse,
+    Dense,
+    Full,
+    OneFreeFirst,
+    OneFreeLast,
+    OneFreeMid,
+    Empty,
+    Raw,
+    Broken,
+}
+
+struct Table {
+    bits: u8,
+    n: usize,         // number of entries encoded (incl. the two reserved ones)
+    bytes: Vec<u8>,   // encoded
+    heads: Vec<u32>,  // heads of the well-formed chains
+    members: Vec<u32>, // clusters on chains (allocated)
+}
+
+/// structured table: reserved entries, random fragmented chains, bad clusters, EOC variants, FAT32 top nibbles
+fn build(rng: &mut SplitMix64, bits: u8, n: usize, style: Style) -> Table {
+    let mv = max_val(bits);
+    let mut e = vec![0u32; n];
+    let mut heads = Vec::new();
+    let mut members = Vec::new();
+    if style == Style::Raw {
+        let len = bytes_for(bits, n);
+        let bytes: Vec<u8> = (0..len).map(|_| rng.next_u64() as u8).collect();
+        return Table { bits, n, bytes, heads, members };
+    }
+    e[0] = (mv & !0xFF) | 0xF8;
+    e[1] = mv;
+    if n > 2 && style != Style::Empty {
+        // clusters 2..n in random order
+        let mut order: Vec<u32> = (2..n as u32).collect();
+        for i in (1..order.len()).rev() {
+            let j = rng.below(i as u64 + 1) as usize;
+            order.swap(i, j);
+        }
+        let fill = match style {
+            Style::Sparse => rng.range(0, 40),
+            Style::Dense => rng.range(60, 95),
+            Style::Broken => rng.range(30, 80),
+            _ => 100,
+        } as usize;
+        let used = (order.len() * fill + 99) / 100;
+        let used = used.min(order.len());
+        let mut i = 0;
+        while i < used {
+            if rng.chance(1, 12) {
+                e[order[i] as usize] = mv - 8; // bad cluster
+                i += 1;
+                continue;
+            }
+            let sequential = rng.chance(1, 3);
+            let len = (rng.range(1, 9) as usize).min(used - i);
+            let mut cl: Vec<u32> = order[i..i + len].to_vec();
+            if sequential {
+                cl.sort_unstable();
+            }
+            for w in 0..len {
+                let c = cl[w] as usize;
+                e[c] = if w + 1 < len { cl[w + 1] } else { eoc_variant(rng, bits) };
+            }
+            heads.push(cl[0]);
+            members.extend_from_slice(&cl);
+            i += len;
+        }
+        let free_at = |e: &mut Vec<u32>, c: usize, heads: &mut Vec<u32>, members: &mut Vec<u32>| {
+            // make entry c free: cut whatever pointed to it
+            for k in 2..e.len() {
+                if e[k] == c as u32 {
+                    e[k] = mv;
+                }
+            }
+            e[c] = 0;
+            heads.retain(|&h| h != c as u32);
+            members.retain(|&h| h != c as u32);
+        };
+        match style {
+            Style::OneFreeFirst => free_at(&mut e, 2, &mut heads, &mut members),
+            Style::OneFreeLast => free_at(&mut e, n - 1, &mut heads, &mut members),
+            Style::OneFreeMid => {
+                let c = rng.range(2, n as u64 - 1) as usize;
+                free_at(&mut e, c, &mut heads, &mut members)
+            }
+            _ => {}
+        }
+        if style == Style::Broken {
+            // cycles, links out of range, links to reserved entries, links to free entries
+            for _ in 0..rng.range(1, 4) {
+                let c = rng.range(2, n as u64 - 1) as usize;
+                e[c] = match rng.below(6) {
+                    0 => c as u32,                                   // self loop
+                    1 => rng.range(2, n as u64 - 1) as u32,          // arbitrary in-range link (cycle/merge)
+                    2 => n as u32 + rng.below(3) as u32,             // just out of range
+                    3 => rng.below(2) as u32 + if rng.chance(1, 2) { 0 } else { 1 }, // 0/1/2
+                    4 => mv - 9 - rng.below(8) as u32,               // reserved values 0x?FF0..6
+                    _ => rng.range(2, mv as u64) as u32,             // anything
+                };
+            }
+        }
+    }
+    if bits == 32 {
+        for k in 0..n {
+            if rng.chance(1, 2) {
+                e[k] |= (rng.below(16) as u32) << 28;
+            }
+        }
+    }
+    let extra = if rng.chance(1, 4) { rng.range(1, 5) as usize } else { 0 };
+    let bytes = encode(bits, &e, extra);
+    Table { bits, n, bytes, heads, members }
+}
+
+fn random_style(rng: &mut SplitMix64) -> Style {
+    *rng.pick(&[
+        Style::Sparse,
+        Style::Sparse,
+        Style::Dense,
+        Style::Dense,
+        Style::Full,
+        Style::OneFreeFirst,
+        Style::OneFreeLast,
+        Style::OneFreeMid,
+        Style::Empty,
+        Style::Raw,
+        Style::Broken,
+        Style::Broken,
+    ])
+}
+
+/// sometimes cut 1..3 bytes off the end (reads/writes past the end)
+fn maybe_cut(rng: &mut SplitMix64, bytes: &[u8]) -> Vec<u8> {
+    let mut v = bytes.to_vec();
+    if rng.chance(1, 10) {
+        let k = rng.range(1, 3) as usize;
+        let l = v.len().saturating_sub(k);
+        v.truncate(l);
+    }
+    v
+}
+
+const BITS: [u8; 3] = [12, 16, 32];
+
+// ---------------------------------------------------------------------------------------------------------------
+
+fn gen_get(em: &mut Emit, rng: &mut SplitMix64, tier: Tier) {
+    // every raw 12-bit value at an even and at an odd position, neighbours random
+    for v in 0..4096u32 {
+        for pos in [2usize, 3] {
+            let mut e = [rng.next_u32() & 0xFFF, rng.next_u32() & 0xFFF, rng.next_u32() & 0xFFF, rng.next_u32() & 0xFFF, rng.next_u32() & 0xFFF];
+            e[pos] = v;
+            let fat = encode(12, &e, 0);
+            em.get(12, &fat, pos as u32);
+        }
+    }
+    // every raw 16-bit value
+    for v in 0..65536u32 {
+        let e = [rng.next_u32() & 0xFFFF, v, rng.next_u32() & 0xFFFF];
+        let fat = encode(16, &e, 0);
+        em.get(16, &fat, 1);
+    }
+    // FAT32: boundaries of the classification ±2 under every top nibble, plus a random grid
+    let marks: [u32; 6] = [0, 0x0FFF_FFF0, 0x0FFF_FFF7, 0x0FFF_FFF8, 0x0FFF_FFFF, 0x0800_0000];
+    for &m in &marks {
+        for d in -2i64..=2 {
+            let v = (m as i64 + d).rem_euclid(0x1000_0000) as u32;
+            for top in 0..16u32 {
+                let e = [rng.next_u32(), rng.next_u32(), v | (top << 28), rng.next_u32()];
+                let fat = encode(32, &e, 0);
+                em.get(32, &fat, 2);
+            }
+        }
+    }
+    for _ in 0..tier.pick(3000, 200_000) {
+        let v = match rng.below(4) {
+            0 => rng.next_u32(),
+            1 => rng.next_u32() & 0xF000_00FF,
+            2 => 0x0FFF_FF00 | (rng.next_u32() & 0xF000_00FF),
+            _ => rng.below(500) as u32,
+        };
+        let e = [rng.next_u32(), v, rng.next_u32()];
+        let fat = encode(32, &e, 0);
+        em.get(32, &fat, 1);
+    }
+    // cluster numbers: past the end of the bytes, the special FAT32 numbers, u32 overflow of the offset
+    let clusters: [u32; 24] = [
+        0, 1, 2, 3, 4, 5, 6, 7, 8, 9, 100,
+        0x0FFF_FFF6, 0x0FFF_FFF7, 0x0FFF_FFF8, 0x0FFF_FFFF, 0x1000_0000,
+        0x3FFF_FFFF, 0x4000_0000, 0x7FFF_FFFF, 0x8000_0000,
+        2_863_311_530, 2_863_311_531, 0xFFFF_FFFE, 0xFFFF_FFFF,
+    ];
+    for &bits in &BITS {
+        for len in 0..=13usize {
+            let fat: Vec<u8> = (0..len).map(|_| rng.next_u64() as u8).collect();
+            for &c in &clusters {
+                em.get(bits, &fat, c);
+            }
+        }
+    }
+}
+
+fn value_grid(bits: u8) -> Vec<(u8, u32)> {
+    let mut v: Vec<(u8, u32)> = vec![(0, 0), (2, 0), (3, 0), (7, 5)];
+    let ns: [u32; 26] = [
+        0, 1, 2, 3, 0x0F, 0x10, 0xFF, 0x100, 0xABC, 0xFF0, 0xFF6, 0xFF7, 0xFF8, 0xFFF, 0x1000, 0x1234, 0xFFF6, 0xFFF7,
+        0xFFFF, 0x1_0000, 0x0FFF_FFF6, 0x0FFF_FFF7, 0x0FFF_FFFF, 0x1000_0000, 0xF000_0001, 0xFFFF_FFFF,
+    ];
+    for &n in &ns {
+        if bits == 12 && n > 0x1_0000 && n != 0xFFFF_FFFF {
+            continue;
+        }
+        v.push((1, n));
+    }
+    v
+}
+
+fn gen_set(em: &mut Emit, rng: &mut SplitMix64, tier: Tier) {
+    for &bits in &BITS {
+        // all (cluster, value) pairs on small tables, structured and raw, incl. clusters past the end
+        for round in 0..tier.pick(3, 30) {
+            let n = 3 + round % 4 + rng.below(3) as usize;
+            let style = if round % 2 == 0 { Style::Raw } else { Style::Dense };
+            let t = build(rng, bits, n, style);
+            for cut in 0..=2usize {
+                let bytes = &t.bytes[..t.bytes.len().saturating_sub(cut)];
+                for c in 0..(n as u32 + 3) {
+                    for (k, nv) in value_grid(bits) {
+                        em.set(bits, bytes, c, k, nv);
+                    }
+                }
+            }
+        }
+        // random cells of larger tables
+        for _ in 0..tier.pick(300, 20_000) {
+            let n = pick_size(rng);
+            let st = random_style(rng);
+            let t = build(rng, bits, n, st);
+            let c = rng.below(n as u64 + 2) as u32;
+            let (k, nv) = match rng.below(4) {
+                0 => (0, 0),
+                1 => (2, 0),
+                2 => (3, 0),
+                _ => (1, rng.range(0, max_val(bits) as u64 + 2) as u32),
+            };
+            em.set(bits, &t.bytes, c, k, nv);
+        }
+        // huge cluster numbers (overflow / special FAT32 numbers)
+        let fat: Vec<u8> = (0..16).map(|_| rng.next_u64() as u8).collect();
+        for &c in &[0x0FFF_FFF6u32, 0x0FFF_FFF7, 0x0FFF_FFFF, 0x3FFF_FFFF, 0x4000_0000, 0x7FFF_FFFF, 0x8000_0000, 2_863_311_530, 2_863_311_531, 0xFFFF_FFFF] {
+            for (k, nv) in [(0u8, 0u32), (1, 7), (2, 0), (3, 0)] {
+                em.set(bits, &fat, c, k, nv);
+            }
+        }
+    }
+}
+
+fn gen_scan(em: &mut Emit, rng: &mut SplitMix64, tier: Tier) {
+    for &bits in &BITS {
+        for _ in 0..tier.pick(1200, 60_000) {
+            let n = pick_size(rng);
+            let st = random_style(rng);
+            let t = build(rng, bits, n, st);
+            let bytes = maybe_cut(rng, &t.bytes);
+            let endc = n as u32;
+            // find_free: start/end grid around the boundaries
+            let starts = [0u32, 1, 2, 3, endc / 2, endc.saturating_sub(2), endc - 1, endc, endc + 1];
+            let s = *rng.pick(&starts);
+            let e = match rng.below(8) {
+                0 => s,
+                1 => s + 1,
+                2 => s.saturating_sub(1),
+                3 => endc + 1 + rng.below(3) as u32,
+                4 => rng.below(endc as u64 + 2) as u32,
+                _ => endc,
+            };
+            em.find_free(bits, &bytes, s, e);
+            // count_free: total = n-2 mostly; smaller (padding entries), larger (short table), 0, 1
+            let total = match rng.below(10) {
+                0 => 0,
+                1 => 1,
+                2 => (n as u32 - 2) + 1 + rng.below(3) as u32,
+                3 => rng.below(n as u64 - 1) as u32,
+                _ => n as u32 - 2,
+            };
+            em.count_free(bits, &bytes, total);
+        }
+        for &t in &[0xFFFF_FFFDu32, 0xFFFF_FFFE, 0xFFFF_FFFF] {
+            em.count_free(bits, &[0u8; 16], t);
+            em.alloc(bits, &[0u8; 16], None, None, t);
+        }
+        for &s in &[0x3FFF_FFFFu32, 0x4000_0000, 0x7FFF_FFFF, 0x8000_0000, 2_863_311_530, 2_863_311_531, 0xFFFF_FFFF] {
+            em.find_free(bits, &[0u8; 16], s, s.wrapping_add(1));
+            em.find_free(bits, &[0u8; 16], s, 10);
+        }
+    }
+}
+
+fn gen_alloc(em: &mut Emit, rng: &mut SplitMix64, tier: Tier) {
+    for &bits in &BITS {
+        for _ in 0..tier.pick(1300, 60_000) {
+            let n = pick_size(rng);
+            let st = random_style(rng);
+            let t = build(rng, bits, n, st);
+            let bytes = maybe_cut(rng, &t.bytes);
+            // total: usually exactly the table; sometimes the table has padding entries; rarely too short
+            let total = match rng.below(12) {
+                0 => (n as u32 - 2).saturating_sub(1 + rng.below(3) as u32),
+                1 => n as u32 - 2 + 1 + rng.below(2) as u32,
+                2 => 0,
+                _ => n as u32 - 2,
+            };
+            let endc = total + 2;
+            let hint = match rng.below(12) {
+                0 | 1 => None,
+                2 => Some(2),
+                3 => Some(endc / 2 + 1),
+                4 => Some(endc.saturating_sub(2)),          // last-1
+                5 => Some(endc.saturating_sub(1)),          // last
+                6 => Some(endc),                             // last+1 = total+2
+                7 => Some(endc + 1 + rng.below(1000) as u32), // beyond
+                8 => Some(rng.below(2) as u32),              // 0 / 1 (violates hint_ge_2)
+                9 => Some(3),
+                _ => Some(rng.below(endc as u64 + 1) as u32),
+            };
+            let prev = match rng.below(8) {
+                0 | 1 | 2 => None,
+                3 | 4 | 5 => {
+                    if t.members.is_empty() {
+                        None
+                    } else {
+                        Some(*rng.pick(&t.members))
+                    }
+                }
+                6 => Some(rng.below(n as u64 + 3) as u32),
+                _ => Some(n as u32 + rng.below(3) as u32),
+            };
+            em.alloc(bits, &bytes, prev, hint, total);
+        }
+        // tiny exhaustive corner: 1..4 data clusters, every free/used pattern, every hint 0..=total+3 and none
+        for total in 0..=tier.pick(3u32, 5u32) {
+            let n = total as usize + 2;
+            for pat in 0..(1u32 << total) {
+                let mut e = vec![0u32; n];
+                e[0] = (max_val(bits) & !0xFF) | 0xF8;
+                e[1] = max_val(bits);
+                for k in 0..total {
+                    if pat >> k & 1 == 1 {
+                        e[2 + k as usize] = max_val(bits);
+                    }
+                }
+                for extra in [0usize, 3] {
+                    let bytes = encode(bits, &e, extra);
+                    em.alloc(bits, &bytes, None, None, total);
+                    for h in 0..=total + 3 {
+                        em.alloc(bits, &bytes, None, Some(h), total);
+                    }
+                    em.count_free(bits, &bytes, total);
+                }
+            }
+        }
+    }
+}
+
+fn gen_chain(em: &mut Emit, rng: &mut SplitMix64, tier: Tier) {
+    for &bits in &BITS {
+        for _ in 0..tier.pick(1000, 50_000) {
+            let n = pick_size(rng);
+            let style = match rng.below(6) {
+                0 | 1 => Style::Dense,
+                2 => Style::Sparse,
+                3 => Style::Full,
+                4 => Style::Broken,
+                _ => random_style(rng),
+            };
+            let t = build(rng, bits, n, style);
+            let bytes = maybe_cut(rng, &t.bytes);
+            let c = match rng.below(8) {
+                0 | 1 | 2 | 3 => {
+                    if t.heads.is_empty() {
+                        2
+                    } else {
+                        *rng.pick(&t.heads)
+                    }
+                }
+                4 | 5 => {
+                    if t.members.is_empty() {
+                        2
+                    } else {
+                        *rng.pick(&t.members)
+                    }
+                }
+                6 => rng.below(n as u64 + 3) as u32,
+                _ => rng.below(3) as u32,
+            };
+            match rng.below(3) {
+                0 => em.free(bits, &bytes, c, BUDGET),
+                1 => em.truncate(bits, &bytes, c, BUDGET),
+                _ => {
+                    let max = *rng.pick(&[0usize, 1, 2, 3, 8, n, n + 5]);
+                    em.chain(bits, &bytes, c, max)
+                }
+            }
+        }
+        // out of range / overflowing start clusters
+        let fat: Vec<u8> = (0..24).map(|_| rng.next_u64() as u8).collect();
+        for &c in &[30u32, 0x0FFF_FFF7, 0x3FFF_FFFF, 0x4000_0000, 0x8000_0000, 2_863_311_531, 0xFFFF_FFFF] {
+            em.free(bits, &fat, c, BUDGET);
+            em.truncate(bits, &fat, c, BUDGET);
+            em.chain(bits, &fat, c, 4);
+        }
+    }
+}
+
+fn gen_flags_format(em: &mut Emit, rng: &mut SplitMix64, tier: Tier) {
+    for &bits in &BITS {
+        // flags: every combination of the two bits, other bits random; short tables
+        for _ in 0..tier.pick(60, 2000) {
+            let mv = max_val(bits);
+            let mut e1 = rng.next_u32();
+            let (b_dirty, b_err) = match bits {
+                16 => (15, 14),
+                32 => (27, 26),
+                _ => (11, 10),
+            };
+            e1 &= !((1 << b_dirty) | (1 << b_err));
+            e1 |= (rng.below(2) as u32) << b_dirty;
+            e1 |= (rng.below(2) as u32) << b_err;
+            let e = [rng.next_u32() & mv, if bits == 32 { e1 } else { e1 & mv }, rng.next_u32() & mv];
+            let bytes = encode(bits, &e, 0);
+            em.flags(bits, &bytes);
+        }
+        for len in 0..=9usize {
+            let fat: Vec<u8> = (0..len).map(|_| rng.next_u64() as u8).collect();
+            em.flags(bits, &fat);
+        }
+        // format: header boundaries, the padding loop, totals around the end
+        for bpf in 0..=40u64 {
+            for &total in &[0u32, 1, 2, 5, 20] {
+                em.format(bits, 0xF8, bpf, total);
+            }
+        }
+        for _ in 0..tier.pick(250, 5000) {
+            let bpf = *rng.pick(&[32u64, 48, 64, 96, 128, 200, 256, 512, 513, 1024, 1536]);
+            let cap = (bpf * 8 / bits as u64) as u32;
+            let total = match rng.below(8) {
+                0 => 0,
+                1 => cap.saturating_sub(2),
+                2 => cap.saturating_sub(3),
+                3 => cap.saturating_sub(1),
+                4 => cap,
+                5 => cap + 1 + rng.below(5) as u32,
+                _ => rng.below(cap as u64 + 1) as u32,
+            };
+            let media = *rng.pick(&[0xF8u8, 0xF0, 0x00, 0xFF, 0x5A]);
+            em.format(bits, media, bpf, total);
+        }
+        for &t in &[0xFFFF_FFFDu32, 0xFFFF_FFFE, 0xFFFF_FFFF] {
+            em.format(bits, 0xF8, 16, t);
+        }
+    }
+}
+
+pub fn run(tier: Tier, seed: u64, out: &mut dyn IoWrite) {
+    let mut rng = SplitMix64::new(seed ^ 0xFA7_7AB1E);
+    let mut em = Emit { out, count: 0 };
+    let mut r = rng.fork();
+    gen_get(&mut em, &mut r, tier);
+    let mut r = rng.fork();
+    gen_set(&mut em, &mut r, tier);
+    let mut r = rng.fork();
+    gen_scan(&mut em, &mut r, tier);
+    let mut r = rng.fork();
+    gen_alloc(&mut em, &mut r, tier);
+    let mut r = rng.fork();
+    gen_chain(&mut em, &mut r, tier);
+    let mut r = rng.fork();
+    gen_flags_format(&mut em, &mut r, tier);
+    writeln!(em.out, "# fat probes={}", em.count).unwrap();
+}
